@@ -187,6 +187,53 @@ def _model_dict(m):
     return out
 
 
+_NLMUL = z3.Function("nl_mul", z3.RealSort(), z3.RealSort(), z3.RealSort())
+_NLDIV = z3.Function("nl_div", z3.RealSort(), z3.RealSort(), z3.RealSort())
+
+
+def abstract_nonlinear(e, memo):
+    """sound weakening: non-linear products / quotients become uninterpreted (commutative) function applications,
+    so that purely equational steps (congruence under pointwise-equal factors) are decided by EUF + linear arithmetic"""
+    k = e.get_id()
+    if k in memo:
+        return memo[k]
+    if z3.is_quantifier(e):
+        body = abstract_nonlinear(e.body(), memo)
+        vs = [z3.Const(e.var_name(i), e.var_sort(i)) for i in range(e.num_vars())]
+        # rebuild with fresh constants substituted for the de Bruijn variables
+        inst = z3.substitute_vars(body, *reversed(vs))
+        if e.is_lambda():
+            r = z3.Lambda(vs, inst)
+        else:
+            r = z3.ForAll(vs, inst) if e.is_forall() else z3.Exists(vs, inst)
+        memo[k] = r
+        return r
+    if not z3.is_app(e) or e.num_args() == 0:
+        memo[k] = e
+        return e
+    ch = [abstract_nonlinear(c, memo) for c in e.children()]
+    d = e.decl()
+    kind = d.kind()
+    r = None
+    if kind == z3.Z3_OP_MUL and z3.is_real(e):
+        nums = [c for c in ch if z3.is_rational_value(c) or z3.is_int_value(c)]
+        rest = [c for c in ch if not (z3.is_rational_value(c) or z3.is_int_value(c))]
+        if len(rest) >= 2:
+            rest.sort(key=lambda t: (t.decl().name() if z3.is_app(t) else "~", t.num_args() if z3.is_app(t) else 0))
+            acc = rest[0]
+            for c in rest[1:]:
+                acc = _NLMUL(acc, c)
+            for c in nums:
+                acc = c * acc
+            r = acc
+    elif kind == z3.Z3_OP_DIV and not (z3.is_rational_value(ch[1]) or z3.is_int_value(ch[1])):
+        r = _NLDIV(ch[0], ch[1])
+    if r is None:
+        r = d(*ch) if ch else e
+    memo[k] = r
+    return r
+
+
 def solve_smt2(text, timeout_s=30, seed=0, want_model=True, use_cvc5=True):
     """returns dict(status, backend, time_s, model?, reason?)"""
     t0 = time.time()
@@ -194,24 +241,41 @@ def solve_smt2(text, timeout_s=30, seed=0, want_model=True, use_cvc5=True):
     attempts = []
     try:
         fs = z3.parse_smt2_string(text)
-        for tactic, frac in ((None, 0.5), ("nl", 0.5)):
-            s = z3.Solver() if tactic is None else z3.Then("simplify", "solve-eqs", "smt").solver()
-            s.set("timeout", int(timeout_s * 1000 * frac))
-            s.set("random_seed", seed)
-            if tactic == "nl":
-                pass
-            s.add(fs)
-            r = s.check()
-            attempts.append("z3/%s:%s" % (tactic or "default", r))
+        def attempt_default(frac, label, solver):
+            solver.set("timeout", int(timeout_s * 1000 * frac))
+            solver.set("random_seed", seed)
+            solver.add(fs)
+            r = solver.check()
+            attempts.append("z3/%s:%s" % (label, r))
             if r == z3.unsat:
                 res.update(status="unsat", backend="z3")
-                break
-            if r == z3.sat:
+            elif r == z3.sat:
                 res.update(status="sat", backend="z3")
                 if want_model:
-                    res["model"] = _model_dict(s.model())
-                break
-            res["reason"] = s.reason_unknown()
+                    res["model"] = _model_dict(solver.model())
+            else:
+                res["reason"] = solver.reason_unknown()
+            return r
+
+        attempt_default(0.25, "default", z3.Solver())
+        if res["status"] == "unknown":
+            # equational attempt: non-linear arithmetic abstracted to uninterpreted functions (sound for `unsat` only)
+            try:
+                memo = {}
+                fs2 = [abstract_nonlinear(f, memo) for f in fs]
+                xa, ya = z3.Reals("nl!x nl!y")
+                fs2.append(z3.ForAll([xa, ya], _NLMUL(xa, ya) == _NLMUL(ya, xa)))
+                s = z3.Solver()
+                s.set("timeout", int(min(timeout_s * 0.25, 10) * 1000))
+                s.add(fs2)
+                r = s.check()
+                attempts.append("z3/nl-abstracted:%s" % r)
+                if r == z3.unsat:
+                    res.update(status="unsat", backend="z3(nl-abstracted)")
+            except z3.Z3Exception as exc:
+                attempts.append("z3/nl-abstracted:error %s" % str(exc)[:80])
+        if res["status"] == "unknown":
+            attempt_default(0.5, "simplify+solve-eqs", z3.Then("simplify", "solve-eqs", "smt").solver())
     except z3.Z3Exception as exc:
         res["reason"] = "z3 exception: %s" % exc
     if res["status"] == "unknown" and use_cvc5:
